@@ -66,14 +66,14 @@ func AdversarialIDs(rng *hlib.Rng, n int) []uint64 {
 		case style == 1: // tiny ids incl. 0 and wrap-around neighbours
 			switch rng.Intn(4) {
 			case 0:
-				add(uint64(rng.Intn(8)))
+				add(uint64(rng.Intn(8 + n)))
 			case 1:
-				add(M - 1 - uint64(rng.Intn(8)))
+				add(M - 1 - uint64(rng.Intn(8+n)))
 			default:
-				add(uint64(rng.Intn(64)))
+				add(uint64(rng.Intn(64 + 4*n)))
 			}
 		case style == 2: // clustered/adjacent around a base
-			add(base + uint64(rng.Intn(6)))
+			add(base + uint64(rng.Intn(2*n+2)))
 		case style == 3: // finger targets of earlier ids: x + 2^k, and ±1 around them
 			if len(ids) == 0 || rng.Chance(30) {
 				add(rng.U64())
@@ -89,7 +89,7 @@ func AdversarialIDs(rng *hlib.Rng, n int) []uint64 {
 			case 1:
 				add(M - 1)
 			case 2:
-				add(base + uint64(rng.Intn(3)))
+				add(base + uint64(rng.Intn(3+n)))
 			default:
 				add(rng.U64())
 			}
